@@ -272,7 +272,11 @@ pub fn url_for(r: &mut Rng, rule_line: &str) -> String {
     } else {
         ((r.pick(HOSTS)).to_string(), format!("/{}", pat))
     };
-    let rest = rest.trim_end_matches('|').replace('^', "/").replace('*', "q-");
+    // what a '*' of the pattern stands for in the URL: sometimes text ending in a separator, sometimes
+    // alphanumeric text glued to the next literal (the token after the '*' is then only the tail of a
+    // longer URL token)
+    let star: &str = r.pick(&["q-", "q-", "zz", "x9", "to", ""]);
+    let rest = rest.trim_end_matches('|').replace('^', "/").replace('*', star);
     let scheme = r.pick(&["https", "http"]);
     // sometimes glue an alphanumeric run directly onto the pattern text (no separator): a token of
     // the pattern is then only part of a longer URL token
